@@ -81,7 +81,9 @@ def updAt (a : List Nat) (idx : List Int) (f : Nat → Nat) : Except Err (List N
     .ok (a.mapIdx (fun i r => if idx.any (fun k => normIdx a.length k == some i) then f r else r))
   else .error .index
 
-/-- uint32 decrement (the driver's reference counters are `np.uint32`) -/
+/-- uint32 decrement (the driver's reference counters are `np.uint32` after `clear()`; after the first
+`_amend_segments` numpy's `concatenate` silently turns them into int64 — under the invariant a counter is
+never decremented at 0, so the two readings cannot be told apart) -/
 def decU32 (r : Nat) : Nat := if r = 0 then 4294967295 else r - 1
 
 /-! ## `find_positions` -/
